@@ -101,6 +101,7 @@ export function mkValue(spec, rt, name = '?') {
     case 'date': return new Date(0);
     case 'map': return new Map();
     case 'set': return new Set();
+    case 'setOf': return new Set((spec.v || []).map((v, i) => mkValue(v, rt, name + '{' + i + '}')));
     case 'regexp': return /x/;
     case 'error': return new Error('e');
     case 'promise': return Promise.resolve(1);
